@@ -22,12 +22,14 @@ pub mod okey;
 pub mod btree;
 pub mod englib;
 pub mod pager;
+pub mod vacuum;
 
 pub fn all() -> Vec<StreamDef> {
     vec![
         okey::def(),
         btree::def(),
         pager::def(),
+        vacuum::def(),
     ]
 }
 
